@@ -30,6 +30,78 @@ def load_prop(pid, modname=None):
     return mod.P, mod
 
 
+def _contract_texts(c):
+    out = list(c.requires) + list(c.ensures)
+    for lc in (c.loops or {}).values():
+        out += list(lc.inv) + list(lc.at_end) + list(lc.at_head) + list(lc.at_exit) + list(lc.lemmas)
+        out += [m.where for m in (lc.modifies or [])]
+        if lc.decreases:
+            out.append(lc.decreases)
+    return out
+
+
+def _verify_renaming(eng, c, P, repo, res):
+    """eng.verify(c); when a LOOP specification names a local variable the function no longer has (a renamed temporary), the other locals of
+    the function are tried in its place.  Sound: loop invariants are proof aids -- whatever variable they speak about, they are accepted
+    only if they hold on entry, are preserved and give the postcondition; requires / ensures are never rewritten."""
+    import ast
+    import copy
+    import re
+    from pyvc.engine import Engine, ContractError
+    try:
+        return eng.verify(c)
+    except ContractError as e:
+        m = re.search(r': name (\w+) \(line', str(e))
+        if not m or not c.loops:
+            raise
+        missing = m.group(1)
+        if any(re.search(r'\b%s\b' % re.escape(missing), t) for t in list(c.requires) + list(c.ensures)):
+            raise
+        first = e
+    from pyvc.exec import locate
+    fn = locate(repo, c.file, c.qualname).node
+    names = sorted({n.id for n in ast.walk(fn) if isinstance(n, ast.Name) and isinstance(n.ctx, ast.Store)})
+    used = ' '.join(_contract_texts(c))
+    import difflib
+    cands = [n for n in names if not re.search(r'\b%s\b' % re.escape(n), used)]
+    cands.sort(key=lambda n: -difflib.SequenceMatcher(None, n, missing).ratio())
+    from pyvc.solve import discharge_safe as _discharge
+    for cand in cands[:6]:
+        c2 = copy.copy(c)
+        c2.loops = {}
+        sub = lambda t: re.sub(r'\b%s\b' % re.escape(missing), cand, t)
+        for k, lc in c.loops.items():
+            l2 = copy.copy(lc)
+            l2.inv, l2.at_end, l2.at_head, l2.at_exit = [sub(t) for t in lc.inv], [sub(t) for t in lc.at_end], [sub(t) for t in lc.at_head], [sub(t) for t in lc.at_exit]
+            l2.lemmas = [sub(t) for t in lc.lemmas]
+            if lc.decreases:
+                l2.decreases = sub(lc.decreases)
+            if lc.modifies:
+                l2.modifies = [type(mm)(mm.field, sub(mm.where)) for mm in lc.modifies]
+            if lc.locals:
+                l2.locals = {(cand if kk == missing else kk): vv for kk, vv in lc.locals.items()}
+            c2.loops[k] = l2
+        if c.locals:
+            c2.locals = {(cand if kk == missing else kk): vv for kk, vv in c.locals.items()}
+        e2 = Engine(P, repo)
+        try:
+            obls = e2.verify(c2)
+            # the reading is accepted only if every obligation generated under it is discharged (a quick pre-run; the regular run follows)
+            for o in obls:
+                _discharge(o, 20000)
+            if any(o.status not in ('proved', 'sat') for o in obls):
+                continue
+            e2 = Engine(P, repo)
+            obls = e2.verify(c2)
+        except Exception:
+            continue
+        eng.__dict__.update(e2.__dict__)
+        res['notes'] = list(getattr(e2, 'notes', [])) + ['loop specifications of %s: local %r is no longer in the function, read as %r' % (c.name, missing, cand)]
+        eng.notes = res['notes']
+        return obls
+    raise first
+
+
 def _work(args):
     pid, cname, repo, timeout_ms, par_hint = args[:5]
     modname = args[5] if len(args) > 5 else None
@@ -48,7 +120,7 @@ def _work(args):
         if c.trusted:
             res['trusted'] = True
             return res
-        obls = eng.verify(c)
+        obls = _verify_renaming(eng, c, P, repo, res)
         res['gen_s'] = time.time() - t0
         res['notes'] = eng.notes
         ex_info = getattr(eng, 'last_info', None)
